@@ -340,17 +340,27 @@ def run(ctx: Ctx, rs: RuleSet, tier: str):
     may be split over such helpers)."""
     out = [f]
     if f.cls is not None:
-      for c in ctx.calls(f):
-        if isinstance(c.func, ast.Attribute) and isinstance(
-            c.func.value, ast.Name) and c.func.value.id == f.params[0]:
-          h = f.cls.methods.get(c.func.attr)
-          if h is not None and h.name.startswith('_') and h not in out:
-            out.append(h)
+      work = [f]
+      while work:
+        g_ = work.pop()
+        for c in ctx.calls(g_):
+          if isinstance(c.func, ast.Attribute) and isinstance(
+              c.func.value, ast.Name) and g_.params and (
+                  c.func.value.id == g_.params[0]):
+            h = f.cls.methods.get(c.func.attr)
+            if h is not None and h.name.startswith('_') and h not in out:
+              out.append(h)
+              work.append(h)
     return out
 
   def str_elements(e, scope):
     e = ctx.const(roles.deref(scope, e), scope) if isinstance(
         scope, type(val)) else e
+    if isinstance(e, ast.Attribute) and isinstance(
+        e.value, ast.Name) and getattr(scope, 'cls', None) is not None and (
+            scope.params and e.value.id in (scope.params[0], scope.cls.name)):
+      # a table kept as a class attribute: self.TABLE / Class.TABLE
+      e = scope.cls.class_assigns.get(e.attr, e)
     if isinstance(e, ast.Call) and isinstance(e.func, ast.Name) and (
         e.func.id in ('frozenset', 'set', 'tuple', 'list')) and len(
             e.args) == 1:
@@ -535,10 +545,30 @@ def run(ctx: Ctx, rs: RuleSet, tier: str):
     if any('cache' in unparse(d) for d in f2.decorators):
       cached.append(q)
   rets = [r for r in walk_function(pv.node) if isinstance(r, ast.Return)]
+  def _constant_table_lookup(v):
+    # TABLE[key] / TABLE.get(key) on a module-level mapping of immutable
+    # constants: nothing mutable is shared between two lookups
+    if isinstance(v, ast.Call) and isinstance(
+        v.func, ast.Attribute) and v.func.attr == 'get':
+      tbl = v.func.value
+    elif isinstance(v, ast.Subscript):
+      tbl = v.value
+    else:
+      return False
+    if not isinstance(tbl, ast.Name) or tbl.id in pv.local_names():
+      return False
+    d = pv.module.assigns.get(tbl.id)
+    if isinstance(d, ast.Call) and len(d.args) == 1 and not d.keywords:
+      d = d.args[0]   # types.MappingProxyType({...}) / dict({...})
+    return isinstance(d, ast.Dict) and all(
+        isinstance(x, ast.Constant) for x in d.values) and all(
+            k is not None for k in d.keys)
+
   direct = all(isinstance(r.value, ast.Constant) or (
       isinstance(r.value, ast.Call) and unparse(r.value.func) ==
       'ast.literal_eval') or (isinstance(r.value, ast.Call) and p.resolve(
-          r.value.func, pv) in p.funcs) for r in rets)
+          r.value.func, pv) in p.funcs) or _constant_table_lookup(r.value)
+               for r in rets)
   rs.check(not cached and direct and bool(rets), rule, pv.qualname,
            'every return is a constant or a fresh ast.literal_eval(value)'
            if not cached and direct else
